@@ -148,6 +148,8 @@ class optional_left_field(optional_field[_M]):
             pivot: base.RawTokenModel,
             value: _M,
     ) -> None:
+        if value.token_store is token_store:
+            raise ValueError('Cannot reuse node. Consider making a copy.')
         token_store.insert_after(pivot, [
             *copy.deepcopy(self.separators),
             *value.detach(),
@@ -182,6 +184,8 @@ class optional_right_field(optional_field[_M]):
             pivot: base.RawTokenModel,
             value: _M,
     ) -> None:
+        if value.token_store is token_store:
+            raise ValueError('Cannot reuse node. Consider making a copy.')
         token_store.insert_before(pivot, [
             *value.detach(),
             *copy.deepcopy(self.separators),
